@@ -6,21 +6,21 @@ import core
 ID = "C18"
 LEVEL = "exploration"
 RULE = ("cases = (prefix history, probe) pairs: prefix drawn from the C08/C17 alphabet (first/refactor/solve/destroy, one-shot drivers, singular "
-        "steps, independent systems of other sizes and other precisions s/d/c/z); probe = a first-time factorization (FIRST after DESTROY) or a "
+        "steps, independent systems of other sizes and other precisions s/d/c/z, changes of the sp_ienv blocking parameters between first-time factorizations); probe = a first-time factorization (FIRST after DESTROY) or a "
         "simple-driver solve with one thread and the built-in kernels; oracle = differential: the probe is executed once after the prefix and "
         "once in a fresh process on the same values; info, perm_r, perm_c, the validated L/U (structure and values) and X must be "
         "bit-identical (hash compare); the history oracles of C08 run on both. non-trivial = the prefix contains a same-precision call of "
-        "another size, a refactorization or a singular/failed step; distinct = case text")
+        "another size, a change of blocking parameters, a refactorization or a singular/failed step; distinct = case text")
 ASSUMPTIONS = ["probes use nprocs=1 so that the bitwise clause applies; rounding-level agreement for nprocs>=2 is covered by the C01/C02 bounds on both runs"]
 BUDGET = {
     "quick": {"examples": 7000, "workers": 14, "time_budget": 90, "variants": ["asan"]},
-    "thorough": {"examples": 80000, "workers": 14, "time_budget": 1300, "variants": ["asan"]},
+    "thorough": {"examples": 80000, "workers": 14, "time_budget": 1300, "variants": ["asan", "long"], "variant_share": {"asan": 0.8, "long": 0.2}},
 }
 
 
 @st.composite
 def c18_case(draw, nmax=24, maxlen=6):
-    case = draw(hist_case(nmax=nmax, maxlen=maxlen, allow_other=True, allow_singular=True, user_ws=True))
+    case = draw(hist_case(nmax=nmax, maxlen=maxlen, allow_other=True, allow_singular=True, user_ws=True, allow_tune=True))
     # value changes must not depend on the factorization state (the fresh run repeats them without the prefix)
     ops = [o.replace("vals=pivbreak", "vals=flip").replace("vals=pivkeep", "vals=redraw") for o in case["ops"]]
     # make sure a VALUES-neutral probe can be replayed alone: undo value changes is impossible, so the probe alone runs on the values
@@ -53,6 +53,7 @@ def evaluate(case, runner):
     for o in ops[:pi]:
         if o.startswith("FIRST"): have = True
         elif o.startswith("DESTROY"): have = False
+        elif o.startswith("TUNE"): fresh_ops.append(o)       # the blocking parameters in force at the probe are the probe's own arguments
         elif o.startswith("REFACT") and have:
             toks = dict(t.split("=") for t in o.split()[1:] if "=" in t)
             fresh_ops.append("VALUES vals=%s vseed=%s" % (toks.get("vals", "scale"), toks.get("vseed", "1")))
@@ -72,7 +73,7 @@ def evaluate(case, runner):
 
 def nontrivial(case, v):
     ops = case["ops"]; prec = case["set"]["prec"]
-    return any(o.startswith("OTHER prec=%s" % prec) for o in ops) or any(o.startswith("REFACT") for o in ops) or v.get("f", {}).get("singular_steps", 0) > 0
+    return any(o.startswith("TUNE") for o in ops) or any(o.startswith("OTHER prec=%s" % prec) for o in ops) or any(o.startswith("REFACT") for o in ops) or v.get("f", {}).get("singular_steps", 0) > 0
 
 
 classify = hist_classes
